@@ -244,6 +244,10 @@ def _fm_post(c, v0, v1, r):
     outside = lambda l: c.Or(LL(l) <= lo - tol, hi + tol <= LL(l + 1))
     meets = lambda l: c.And(lo + tol < LL(l), LL(l + 1) < hi - tol, lo < hi)
     d = {'one_component': name == 'Flat', 'shape': c.And(c.Shape(sig)[0] == n, c.Shape(sig)[1] == W), 'stored': v1.self.sigma_xsec is not None}
+    if d['stored']:
+        # the yield invariant model_full_contrib relies on: the contribution's own sigma_xsec IS the component it hands out
+        own = v1.self.sigma_xsec
+        d['own_sigma_xsec_is_the_component'] = c.And(c.Shape(own)[0] == n, c.Shape(own)[1] == W, c.Forall2((0, n), (0, W), lambda l, w: c.Eq(own[l, w], sig[l, w])))
     A = lambda l, w: c.And(c.Le(0, sig[l, w]), sig[l, w] <= mix * (1 + tol))
     B = lambda l, w: c.Implies(outside(l), c.Eq(sig[l, w], 0))
     C = lambda l, w: c.Implies(c.And(meets(l), c.Lt(0, mix)), c.Lt(0, sig[l, w]))
